@@ -45,8 +45,26 @@ def bounds(tier):
             "keyfile": ["default", "own", "home-relative (~/...)"], "deep": {"item kinds": ["ctype", "schema"], "wrappers": DEEP_WRAPS, "inner lists": "all of [], [A], [A,B] in every outer container of <= 2 entries", "routes": ["objects", "maps"]}}
 
 
+HEAVY = ("dict-typed", "list-int", "str-tricky", "list-str-req", "list-list")      # many-valued leaves: three positions of them square the state space
+
+
+def _depth(tier, shape, leaf, depth):
+    """quick tier: the nested shapes explore the many-valued leaves one operation deep (two deep in the flat / list shapes)"""
+    if tier != "thorough" and shape.startswith("nested") and leaf in HEAVY:
+        return 1
+    return depth
+
+
 def jobs(tier):
     b = bounds(tier)
+    out = _jobs(tier, b)
+    for j in out:
+        if "shape" in j:
+            j["depth"] = _depth(tier, j["shape"], j["leaf"], j["depth"])
+    return out
+
+
+def _jobs(tier, b):
     out = []
     for sh in b["shapes"]:
         for leaf in b["leaves"]:
